@@ -3,6 +3,7 @@ package main
 import (
 	"fmt"
 	"go/token"
+	"go/types"
 	"strings"
 
 	"golang.org/x/tools/go/ssa"
@@ -428,6 +429,155 @@ func runC01(c *Ctx) {
 	checkPageTagging(c, "R6")
 	// R7: the count reported by the concurrent reader includes the bytes of a short last chunk
 	checkWorkerErrorDelivery(c, "R7")
+	// R8: a pooled buffer goes back to the pool only when nobody can still read it
+	checkPoolDiscipline(c, "R8")
+	// R9: the File offset after a transfer (shared with C12.R5): the next Read/Write starts where this one ended
+	checkOffsetStores(c, "R9", nil)
+}
+
+// checkPoolDiscipline: chunks travel between the goroutines of a transfer in pooled buffers.  pool.Put(b) makes b
+// available to every other worker at once, so at a Put (a) the same function must not use the buffer afterwards and
+// (b) the buffer must not have been handed to another goroutine (sent over a channel, directly or inside a struct)
+// on a path leading to the Put — the receiver would read bytes of a later chunk.
+func checkPoolDiscipline(c *Ctx, rule string) {
+	p := c.P
+	n := 0
+	for _, fn := range p.LibFuncs() {
+		ord := 0
+		eachInstr(fn, func(in ssa.Instruction) {
+			call, ok := in.(*ssa.Call)
+			if !ok {
+				return
+			}
+			f := call.Call.StaticCallee()
+			if f == nil || (fnName(f) != "(*bufPool).Put" && fnName(f) != "(resChanPool).Put") {
+				return
+			}
+			n++
+			ord++
+			key := fmt.Sprintf("%s: %s #%d", fnName(fn), fnName(f), ord)
+			buf := call.Call.Args[len(call.Call.Args)-1]
+			// values sharing the buffer's backing store
+			same := map[ssa.Value]bool{}
+			var back func(v ssa.Value)
+			back = func(v ssa.Value) {
+				if v == nil || same[v] {
+					return
+				}
+				same[v] = true
+				switch x := v.(type) {
+				case *ssa.Slice:
+					back(x.X)
+				case *ssa.Phi:
+					for _, e := range x.Edges {
+						back(e)
+					}
+				case *ssa.ChangeType:
+					back(x.X)
+				}
+			}
+			back(buf)
+			for changed := true; changed; {
+				changed = false
+				for v := range same {
+					refs := v.Referrers()
+					if refs == nil {
+						continue
+					}
+					for _, r := range *refs {
+						switch x := r.(type) {
+						case *ssa.Slice:
+							if x.X == v && !same[x] {
+								same[x] = true
+								changed = true
+							}
+						case *ssa.Phi:
+							if !same[x] {
+								same[x] = true
+								changed = true
+							}
+						}
+					}
+				}
+			}
+			// (b) handed to another goroutine before the Put
+			handed := ""
+			sentVals := func(x ssa.Instruction) []ssa.Value {
+				switch s := x.(type) {
+				case *ssa.Send:
+					return []ssa.Value{s.X}
+				case *ssa.Select:
+					var out []ssa.Value
+					for _, st := range s.States {
+						if st.Dir == types.SendOnly && st.Send != nil {
+							out = append(out, st.Send)
+						}
+					}
+					return out
+				}
+				return nil
+			}
+			carries := func(sent ssa.Value) bool {
+				if same[sent] {
+					return true
+				}
+				// a struct loaded from a local whose field holds the buffer
+				if ld, ok := sent.(*ssa.UnOp); ok && ld.Op == token.MUL {
+					if a, ok := ld.X.(*ssa.Alloc); ok {
+						for _, r := range *a.Referrers() {
+							if fa, ok := r.(*ssa.FieldAddr); ok {
+								for _, st := range storesTo(fn, fa) {
+									if same[st.Val] {
+										return true
+									}
+								}
+							}
+						}
+					}
+				}
+				return false
+			}
+			eachInstr(fn, func(x ssa.Instruction) {
+				for _, sv := range sentVals(x) {
+					if carries(sv) && reachAvoiding(fn, x, func(y ssa.Instruction) bool { return y == in }, nil) {
+						handed = p.Pos(x.Pos())
+					}
+				}
+			})
+			// (a) used after the Put (until the value is defined anew)
+			usedAfter := ""
+			for v := range same {
+				refs := v.Referrers()
+				if refs == nil {
+					continue
+				}
+				def, _ := v.(ssa.Instruction)
+				for _, r := range *refs {
+					if r == in {
+						continue
+					}
+					if _, isDbg := r.(*ssa.DebugRef); isDbg {
+						continue
+					}
+					if vv, isV := r.(ssa.Value); isV && same[vv] {
+						continue // an alias, its own uses are examined
+					}
+					if reachAvoiding(fn, in, func(y ssa.Instruction) bool { return y == r }, func(y ssa.Instruction) bool { return def != nil && y == def }) {
+						usedAfter = p.Pos(r.Pos())
+					}
+				}
+			}
+			switch {
+			case handed != "":
+				c.bad(rule, key, p.Pos(in.Pos()), "the buffer is returned to the pool after it was sent to another goroutine (at "+handed+"): the next worker refills it while the receiver is still using it, and the transfer delivers bytes of the wrong chunk")
+			case usedAfter != "":
+				c.bad(rule, key, p.Pos(in.Pos()), "the buffer is used (at "+usedAfter+") after it was returned to the pool")
+			default:
+				c.ok(rule, key, p.Pos(in.Pos()), "not handed to another goroutine before, not used after")
+			}
+		})
+	}
+	c.check(n >= 4, rule, "pool release sites", "?", fmt.Sprintf("%d Put sites", n), fmt.Sprintf("only %d Put sites found", n))
 }
 
 func firstKey(t term) string {
